@@ -247,6 +247,11 @@ where
         }
     }
 
+    // If no limbs were discarded, initialize carry to zero
+    if out == 0 {
+        ZNXARI::znx_zero(carry);
+    }
+
     // If the shift exceeds the precision of res, the carry sits below its last limb.
     if steps > size {
         vec_znx_carry_skip_bits::<ZNXARI>((steps - size).saturating_mul(base2k), tmp, carry);
@@ -261,8 +266,8 @@ where
 
     // Propagates carry on the rest of the limbs of res
     for j in 0..out {
-        ZNXARI::znx_zero(res.at_mut(res_col, j));
-        if j == 0 {
+        ZNXARI::znx_zero(res.at_mut(res_col, out - j - 1));
+        if j == out - 1 {
             ZNXARI::znx_normalize_final_step_assign(base2k, lsh, res.at_mut(res_col, out - j - 1), carry);
         } else {
             ZNXARI::znx_normalize_middle_step_assign(base2k, lsh, res.at_mut(res_col, out - j - 1), carry);
